@@ -157,14 +157,22 @@ DecStr(s, pre3, strict) ==
 (***************************************************************************)
 (* Values, tags, grids.                                                    *)
 (***************************************************************************)
-\* an object is a grid when it has meta (an object with ver), cols (an array) and rows; the key set
-\* alone does not make a dict {meta:.., cols:.., rows:..} a grid
+\* an object is a grid when it has meta (an object whose ver is a version string) and cols (an array of
+\* objects that each carry a name string), possibly rows (absent, null, or an array of objects), and no
+\* other key; the key set alone does not make a dict {meta:.., cols:.., rows:..} a grid, and a grid
+\* that leaves rows out is still a grid
 GridShaped(ps) ==
-    /\ HasKey(ps, kMeta) /\ HasKey(ps, kCols) /\ HasKey(ps, kRows)
+    /\ HasKey(ps, kMeta) /\ HasKey(ps, kCols) /\ KeySet(ps) \subseteq {kMeta, kCols, kRows}
     /\ NoDupKeys(ps)
     /\ GetKey(ps, kMeta)[1] = 5 /\ NoDupKeys(GetKey(ps, kMeta)[2]) /\ HasKey(GetKey(ps, kMeta)[2], kVer)
     /\ GetKey(GetKey(ps, kMeta)[2], kVer)[1] = 3 /\ V!Valid(GetKey(GetKey(ps, kMeta)[2], kVer)[2])
     /\ GetKey(ps, kCols)[1] = 4
+    /\ \A i \in 1..Len(GetKey(ps, kCols)[2]) :
+          LET c == GetKey(ps, kCols)[2][i]
+          IN c[1] = 5 /\ NoDupKeys(c[2]) /\ HasKey(c[2], kName) /\ GetKey(c[2], kName)[1] = 3
+    /\ HasKey(ps, kRows) =>
+          LET r == GetKey(ps, kRows)
+          IN r[1] = 0 \/ (r[1] = 4 /\ \A i \in 1..Len(r[2]) : r[2][i][1] = 5)
 
 RECURSIVE DecV(_, _, _), DecGrid(_, _)
 
